@@ -1,6 +1,7 @@
 package main
 
 import (
+	"sync"
 	"go/types"
 	"flag"
 	"fmt"
@@ -80,6 +81,66 @@ func main() {
 			fmt.Printf("%-28s fresh=%v  %s   %s\n", cl, inf.fresh, n, inf.reason)
 		}
 		fmt.Println(cnt)
+	case "errsweep":
+		// development aid: run the error-propagation obligation on every yq function that returns an error
+		P, err := loadProgram(envOr("YQ_REPO", "/repo"), envOr("VERIF_DIR", "/verif"))
+		if err != nil {
+			fmt.Fprintln(os.Stderr, err)
+			os.Exit(2)
+		}
+		fastMode = true
+		var names []string
+		for n, fn := range P.funcs {
+			sig := fn.Signature
+			k := sig.Results().Len()
+			if k > 0 && types.TypeString(sig.Results().At(k-1).Type(), nil) == "error" {
+				names = append(names, n)
+			}
+		}
+		sort.Strings(names)
+		dir, cleanup := tempDir()
+		defer cleanup()
+		var wg sync.WaitGroup
+		var mu sync.Mutex
+		sem := make(chan struct{}, 12)
+		var bad []string
+		okc := 0
+		for _, n := range names {
+			wg.Add(1)
+			go func(n string) {
+				defer wg.Done()
+				sem <- struct{}{}
+				defer func() { <-sem }()
+				vc, err := P.generateFixpoint(P.funcs[n], P.contractFor(P.funcs[n]), genOpts{errprop: true, assumeTypeAsserts: true}, 3000)
+				if err != nil {
+					mu.Lock()
+					bad = append(bad, "GENERR "+n+": "+err.Error())
+					mu.Unlock()
+					return
+				}
+				var sel []*Obligation
+				for _, o := range vc.Obls {
+					if o.Kind == "errprop" {
+						sel = append(sel, o)
+					}
+				}
+				for _, r := range P.discharge(sel, dir, 3000, false, "") {
+					mu.Lock()
+					if r.OK {
+						okc++
+					} else {
+						bad = append(bad, fmt.Sprintf("%-8s %s (%s:%d)", r.Res.Verdict, r.Obl.Name, shortFile(r.Obl.Pos.Filename), r.Obl.Pos.Line))
+					}
+					mu.Unlock()
+				}
+			}(n)
+		}
+		wg.Wait()
+		sort.Strings(bad)
+		for _, b := range bad {
+			fmt.Println(b)
+		}
+		fmt.Printf("%d functions, %d errprop obligations ok, %d not\n", len(names), okc, len(bad))
 	case "warm":
 		if _, err := loadProgram(envOr("YQ_REPO", "/repo"), envOr("VERIF_DIR", "/verif")); err != nil {
 			fmt.Fprintln(os.Stderr, "warm:", err)
